@@ -957,6 +957,14 @@ func (x *Exec) binop(st *State, fr *Frame, i *ssa.BinOp) Value {
 		}
 		return Sc{App(name, SInt, ta, tb)}
 	case token.OR:
+		// a | b with disjoint bit ranges (the byte-assembling idiom x<<8 | y) is a + b
+		if la, ha := bitShape(i.X); ha >= 0 {
+			if lb, hb := bitShape(i.Y); hb >= 0 && (la >= hb || lb >= ha) {
+				return Sc{x.wrap(Add(ta, tb), typ)}
+			}
+		}
+		// otherwise uninterpreted: a failure on this path is not a refutation by itself
+		st.abstracted = append(st.abstracted, "bitwise or (uninterpreted)")
 		bits := bitsOf(typ)
 		name := fmt.Sprintf("or%d", bits)
 		declareFun(name, fmt.Sprintf("(declare-fun %s (Int Int) Int)", name))
@@ -970,6 +978,78 @@ func (x *Exec) binop(st *State, fr *Frame, i *ssa.BinOp) Value {
 		}
 	}
 	panic(unsupported(fmt.Sprintf("binop %s on %s (%s, %s)", i.Op, xt, ta, tb)))
+}
+
+// bitShape: (number of low bits known to be zero, number of bits above which the value is known to be zero) of a
+// non-negative SSA value, from its shape: constants, unsigned types, widening conversions, left shifts by constants,
+// ors / sums of such. hi < 0: unknown (possibly negative).
+func bitShape(v ssa.Value) (lo, hi int) {
+	unsignedBits := func(t types.Type) int {
+		if b, ok := t.Underlying().(*types.Basic); ok && b.Info()&types.IsUnsigned != 0 {
+			return bitsOf(t)
+		}
+		return -1
+	}
+	switch vv := v.(type) {
+	case *ssa.Const:
+		if vv.Value == nil {
+			return 0, -1
+		}
+		if c, ok := constant.Int64Val(constant.ToInt(vv.Value)); ok && c >= 0 {
+			if c == 0 {
+				return 64, 0
+			}
+			tz := 0
+			for c&(1<<uint(tz)) == 0 {
+				tz++
+			}
+			bl := 0
+			for c>>uint(bl) != 0 {
+				bl++
+			}
+			return tz, bl
+		}
+		return 0, -1
+	case *ssa.Convert:
+		l, h := bitShape(vv.X)
+		if h < 0 {
+			return 0, unsignedBits(vv.Type())
+		}
+		if n := unsignedBits(vv.Type()); n >= 0 && n < h {
+			h = n // truncation
+		}
+		return l, h
+	case *ssa.BinOp:
+		switch vv.Op {
+		case token.SHL:
+			if c, ok := vv.Y.(*ssa.Const); ok && c.Value != nil {
+				if k, ok := constant.Int64Val(constant.ToInt(c.Value)); ok && k >= 0 && k < 64 {
+					l, h := bitShape(vv.X)
+					if h >= 0 {
+						h += int(k)
+						if n := unsignedBits(vv.Type()); n >= 0 && h > n {
+							h = n
+						}
+						return l + int(k), h
+					}
+				}
+			}
+		case token.OR, token.ADD:
+			la, ha := bitShape(vv.X)
+			lb, hb := bitShape(vv.Y)
+			if ha >= 0 && hb >= 0 && (la >= hb || lb >= ha) {
+				l, h := la, ha
+				if lb < l {
+					l = lb
+				}
+				if hb > h {
+					h = hb
+				}
+				return l, h
+			}
+		}
+	}
+	return 0, unsignedBits(v.Type())
 }
 
 func declareXor(bits int) {
